@@ -295,6 +295,9 @@ pub fn run(ctx: &Ctx) -> Report {
                             continue;
                         }
                     };
+                    if r.samples.is_empty() && ref_count > 1 {
+                        r.sample(json!({"query": sql, "setting": sname, "consistent_derivations_in_the_reference": ref_count.to_string(), "candidates_enumerated_by_the_search": cands.len(), "selected_derivation": sel_deriv, "selected_score": sel_score}));
+                    }
                     // well-typed
                     match parse_check(sel_deriv) {
                         Ok(root) => {
@@ -369,7 +372,6 @@ pub fn run(ctx: &Ctx) -> Report {
         }
     });
     head.merge(body);
-    head.sample(json!({"query": "SELECT city, sum(age) AS s FROM users GROUP BY city", "setting": "pu=all-protected sd=true entry=dp", "derivation": "map[DP → DP](reduce[PUP → DP](map[PUP → PUP](users[PUP]())))"}));
     head.rule = "trees = E-sql relations (quick: every third) x {all tables protected, users only, users+orders, nothing protected} x synthetic data on/off x entry {DP, PUP hard, PUP soft}; the rule lists are those the real setter attaches; reference = exhaustive enumeration of the consistent derivations (listed for <= 4096, counted by a memoised recursion otherwise, the two cross-checked); oracle on the real search observed through hook H2: Ok <=> a consistent derivation with an acceptable root exists (else UnreachableProperty), the selected derivation is consistent node by node, the search enumerated exactly the reference set, no candidate has a strictly higher score. states = rule-tree nodes, transitions = candidates observed. non-trivial = accepted (tree, setting) pairs".into();
     head.assumptions = vec!["scores are the library's own (the property is relative to them)".into()];
     head
